@@ -223,7 +223,67 @@ def check_bootstrap(case):
     return fails
 
 
+def granular_reuse(seed):
+    """Row-level metrics see the CURRENT rows of their variant: the same mutable frame is analysed, modified in place
+    (values corrected, rows dropped), and analysed again - stand-alone and inside one Experiment object; every call must
+    hand the statistic exactly the rows a fresh copy of the frame holds now."""
+    import random
+    import numpy as np
+    import pandas as pd
+    import tea_tasting as tt
+    import tea_tasting.metrics as TM
+    rng = random.Random(seed)
+    r = np.random.default_rng(seed)
+    n = rng.choice([30, 60])
+    df = pd.DataFrame({"variant": r.integers(0, 2, n), "x": r.normal(10, 2, n).round(3), "y": r.normal(5, 1, n).round(3)})
+    seen = []
+
+    class Rec(TM.MetricBaseGranular):
+        @property
+        def cols(self):
+            return ("x",)
+
+        def analyze_granular(self, control, treatment):
+            seen.append((sorted(control["x"].to_pylist()), sorted(treatment["x"].to_pylist())))
+            return {"n": control.num_rows + treatment.num_rows}
+    rec = Rec()
+    q = tt.Quantile("x", 0.5, n_resamples=20, random_state=1)
+    exp = tt.Experiment(rec=rec, q=q)
+    fails = []
+
+    def current(frame):
+        return (sorted(frame.loc[frame["variant"] == 0, "x"].tolist()), sorted(frame.loc[frame["variant"] == 1, "x"].tolist()))
+    for step, op in enumerate(["call", "values", "call", "rows", "call", "column", "call"]):
+        if op == "values":
+            df.loc[df["variant"] == 1, "x"] *= 10.0
+        elif op == "rows":
+            df.drop(index=df.index[: n // 5], inplace=True)
+        elif op == "column":
+            df["x"] = df["x"] + 1.0
+        else:
+            via_exp = rng.random() < 0.5
+            seen.clear()
+            if via_exp:
+                exp.analyze(df)
+            else:
+                rec.analyze(df, 0, 1, "variant")
+            if not seen or seen[-1] != current(df):
+                fails.append(f"step {step} ({'Experiment' if via_exp else 'metric'}.analyze after in-place changes): the row-level "
+                             f"metric received {len(seen[-1][0]) if seen else 0}+{len(seen[-1][1]) if seen else 0} stale rows, the frame "
+                             f"now holds {len(current(df)[0])}+{len(current(df)[1])}")
+            # (no other read in between: a comparison against a fresh copy through the library would itself be a read and
+            #  could evict a stale cache entry - the recorder's rows are compared with the frame directly)
+    return fails
+
+
 def oracle(ctx, deep=False):
+    for _ in range(ctx.n(4, 60)):
+        seed = ctx.rng.randint(0, 10**6)
+        ctx.evaluations += 1
+        ctx.count("oracle:reused-frame-history")
+        for f in granular_reuse(seed)[:2]:
+            ctx.violations.append({"what": "row-level metric sees stale rows of a frame modified in place", "detail": f,
+                                   "input": {"granular_reuse": True, "seed": seed}})
     for i in range(ctx.n(40, 1000) * (2 if deep else 1)):
         kind = ctx.rng.choice(["quantile", "bootstrap", "bootstrap"])
         case = {"kind": kind, "backend": ctx.rng.choice(["pandas", "polars", "polars-lazy", "pyarrow", "ibis-sqlite"]),
@@ -246,6 +306,9 @@ def oracle(ctx, deep=False):
 
 def replay(ctx, rp):
     inp = rp["input"]
+    if inp.get("granular_reuse"):
+        fails = granular_reuse(inp["seed"])
+        return {"fails": bool(fails), "failures": fails}
     if "kind" in inp:
         fails = check_bootstrap(inp)
         return {"fails": bool(fails), "failures": fails}
